@@ -796,6 +796,17 @@ impl<'a> Monitor<'a> {
                 }
                 self.layer_dest = false;
                 self.st.add("pop_layer_checked", 1);
+                // clips pushed while the layer was open are in force on the surface now: the target's effective clip
+                // must be what a target that only ever saw the clip calls has (a clip that remembers something of
+                // the layer it was pushed in - its rectangle, its origin - differs here)
+                if self.opts.probe_real_clip && self.layers.is_empty() && !self.clips.is_empty() {
+                    let want = self.effective();
+                    let real = effective_clip(&mut self.dt, self.w, self.h);
+                    self.st.add("real_clip_probes_after_pop_layer", 1);
+                    if let Some(i) = real.iter().zip(want.iter()).position(|(a, b)| a != b) {
+                        self.viol("C05", format!("after pop_layer the target's effective clip differs from a target that only saw the clip calls: at ({},{}) {} vs {}", i as i32 % self.w, i as i32 / self.w, real[i], want[i]));
+                    }
+                }
             }
             _ => {
                 // drawing calls
@@ -1131,7 +1142,18 @@ pub fn gen_scene(rng: &mut crate::prng::Rng, prof: &SceneProfile) -> Scene {
     while ops.len() < nops {
         let r = rng.f64();
         if r < prof.clips * 0.25 && open.len() < 5 {
-            ops.push(gen_clip(rng, w, h));
+            let c = gen_clip(rng, w, h);
+            // a clip path pushed while the transform is singular (its image has no area: it clips everything), and an
+            // ordinary transform again right after it, so that what follows is drawn - or not - through that clip
+            if matches!(c, Op::PushClip(_)) && rng.chance(0.06) {
+                ops.push(Op::SetTransform(*rng.pick(&[Transform::scale(0., 0.), Transform::new(1., 2., 2., 4., 1., 1.), Transform::scale(1., 0.), Transform::scale(0., 1.)])));
+                ops.push(c);
+                let t = if rng.chance(0.5) { Transform::identity() } else { random_transform(rng, w as f64, h as f64) };
+                singular = t.inverse().is_none();
+                ops.push(Op::SetTransform(t));
+            } else {
+                ops.push(c);
+            }
             open.push('c');
         } else if r < prof.clips * 0.25 + prof.layers * 0.2 && open.iter().filter(|c| **c == 'l').count() < 3 {
             let opacity = *rng.pick(&[0.0f32, 1. / 255., 0.3, 0.5, 1.0, 1.0, 1.5, -0.5, f32::NAN, 0.75]);
